@@ -101,13 +101,17 @@ def _plan(draw, max_rows):
             pairs.append([c["name"], v])
         op["pairs"] = pairs
     elif name in ("slice", "slice_off"):
-        how = draw(st.sampled_from(["sorted", "sorted", "arbitrary", "span", "empty", "none"]))
+        how = draw(st.sampled_from(["sorted", "sorted", "arbitrary", "span", "negative", "empty", "none"]))
         if n == 0 or how == "empty":
             op["rows"] = []
         elif how == "none":
             op["rows"] = None
         elif how == "sorted":
             op["rows"] = sorted(set(draw(st.lists(st.integers(0, n - 1), max_size=n))))
+        elif how == "negative" and n >= 1:
+            # positions counted from the end, alone or next to ordinary ones (distinct rows, so that the order is fixed)
+            pos = sorted(set(draw(st.lists(st.integers(0, n - 1), min_size=1, max_size=n))))
+            op["rows"] = [r - n if draw(st.booleans()) else r for r in pos]
         elif how == "span" and n >= 3:
             # end points look like a contiguous block (last - first == len - 1), the interior repeats or is out of order
             m = draw(st.integers(3, n))
@@ -192,9 +196,9 @@ def _expected(plan):
         return keep if name == "filter_kv" else [i for i in range(n) if i not in keep]
     if name == "slice":
         rows = op["rows"]
-        return list(range(n)) if rows is None else list(rows)
+        return list(range(n)) if rows is None else [r % n if r < 0 else r for r in rows]       # -1 is the last row
     if name == "slice_off":
-        rows = op["rows"] or []
+        rows = [r % n if r < 0 else r for r in (op["rows"] or [])]
         return [i for i in range(n) if i not in set(rows)]
     peek = plan.get("peek_rows", 10)
     if name == "head":
@@ -359,7 +363,7 @@ def check(plan, ctx):
             k = min(plan.get("peek_rows", 10) if op["n"] is None else op["n"], n)
             if len(rids) != k or any(b <= a for a, b in zip(rids, rids[1:])):
                 raise Violation("sample: not a strictly increasing subsequence of min(n, nrow) rows", rids=rids, want_len=k)
-        elif name == "slice" and op["rows"] is not None and list(op["rows"]) != sorted(set(op["rows"])):
+        elif name == "slice" and op["rows"] is not None and exp != sorted(set(exp)):
             # order of unsorted / repeated positions is not fixed by the statement: same multiset
             if sorted(rids) != sorted(exp):
                 raise Violation("slice: rows differ from the given positions", rids=rids, want=exp)
@@ -377,6 +381,28 @@ def check(plan, ctx):
                 raise Violation(f"{meth}: {form} form and column=value form disagree",
                                 got=[int(x) for x in np.asarray(alt['_rid_'])], kv=rids)
 
+    if name == "unique" and fp["cols"] and not plan.get("_second"):
+        # no key columns named = every column is a key; without the row-id column duplicates really occur, and rows that
+        # are equal as keys can still be told apart (-0.0 / 0.0, True / 1 in an object column): the FIRST one is kept
+        bare = build.frame({k_: v_ for k_, v_ in fp.items() if k_ not in ("via", "layout")}, rid=None)
+        cols_ = [c["name"] for c in fp["cols"]]
+        seen_, keep_ = set(), []
+        allcells = _cells_by_name(fp)
+        for i in range(n):
+            k_ = tuple(model.ident(allcells[c][i]) for c in cols_)
+            if k_ not in seen_:
+                seen_.add(k_); keep_.append(i)
+        tab = build.table(bare)
+        for label, call in (("unique()", lambda: bare.unique()), ("unique(*all columns)", lambda: bare.unique(*cols_))):
+            u = ctx.call(label, call)
+            for c in cols_:
+                got_ = build.cells(u[c])
+                want_ = [tab[c][1][r] for r in keep_]
+                if len(got_) != len(want_) or not all(build.same_cell(a_, b_) for a_, b_ in zip(got_, want_)):
+                    raise Violation(f"{label} on a frame without a row-id column does not keep the first row of every distinct combination",
+                                    column=c, got=got_, want=want_)
+        if len(keep_) < n:
+            ctx.cls("unique_over_all_columns_with_duplicates")
     if build.snap_frame(data) != before:
         raise Violation(f"{name} changed its receiver")
     if name in ("drop_na", "unique") and op.get("cols") and n and not plan.get("_second"):
